@@ -5,7 +5,7 @@
 From Coq Require Import ZArith Reals Bool List Lia Lra Ascii PrimFloat.
 From Flocq Require Import Core IEEE754.BinarySingleNaN IEEE754.PrimFloat.
 From AwVerif Require Import Base.Prelude Model.PyFloat Model.IsoTime Model.EventModel Model.Codec
-  Proofs.PyFloatFinite Proofs.PyFloatSpec Proofs.EventProofs.
+  Proofs.PyFloatFinite Proofs.PyFloatSpec Proofs.IsoTimeProofs Proofs.EventProofs.
 Open Scope Z_scope.
 
 Definition codec_bound : Z := 2 ^ 33 * 1000000.     (* 8589934592000000 us, year 2242 *)
@@ -125,4 +125,13 @@ Proof.
   change (bpow radix2 (-22)) with (/ IZR (Zpower_pos 2 22))%R in T.
   change (bpow radix2 (-23)) with (/ IZR (Zpower_pos 2 23))%R in T. simpl in T.
   assert (0 <= Rabs (FR cell - RN x + (RN x - x)))%R by apply Rabs_pos. lra.
+Qed.
+
+(* timestamp: str(datetime) text in the DATETIME column, parsed again on reading *)
+Theorem peewee_ts_roundtrip : forall ts, ms_aligned ts -> 0 <= ts <= y2100 ->
+  peewee_ts_dec (peewee_ts_enc ts) = Ok ts.
+Proof.
+  intros ts A R. unfold peewee_ts_dec, peewee_ts_enc, str_utc.
+  assert (P : parse_iso (isoformat_sep " " ts) = Ok (ts, 0)) by (apply parse_isoformat; [now right | exact R]).
+  rewrite (normalise_str _ ts 0 P R) by reflexivity. now rewrite (floor_ms_aligned ts A).
 Qed.
